@@ -36,6 +36,9 @@ Qed.
 
 Section AsmProofs.
   Variable labs : list nat.
+  Variable back_ver : N.
+  Notation resolve_all := (resolve_all back_ver).
+  Notation resolve_one := (resolve_one back_ver).
 
   Lemma shrink_step_shrunk : forall poss ps pos vss,
     List.length ps = List.length vss -> Forall (fun x => 1 <= x) vss ->
@@ -103,5 +106,111 @@ Section AsmProofs.
       assert (sum_nat (map (fun _ : pinstr => 3) ps) = 3 * List.length ps).
       { induction ps; simpl; lia. }
       lia.
+  Qed.
+
+  (* ---------------------------------------------------------------- length of a varint *)
+  Lemma put_uvarint_f_len_le : forall n f x,
+    1 <= n -> (x < 128 ^ N.of_nat n)%N -> List.length (put_uvarint_f f x) <= n.
+  Proof.
+    induction n as [|n IH]; intros f x Hn Hx; [lia|].
+    destruct f as [|f]; [simpl; lia|]. rewrite put_uvarint_f_S.
+    destruct (x <? 128)%N eqn:E; [simpl; lia|]. apply N.ltb_ge in E.
+    cbn [List.length]. destruct n as [|n].
+    - change (128 ^ N.of_nat 1)%N with 128%N in Hx. lia.
+    - assert (List.length (put_uvarint_f f (x / 128)) <= S n); [|lia].
+      apply IH; [lia|].
+      replace (N.of_nat (S (S n))) with (1 + N.of_nat (S n))%N in Hx by lia.
+      rewrite N.pow_add_r in Hx. change (128 ^ 1)%N with 128%N in Hx.
+      apply N.div_lt_upper_bound; lia.
+  Qed.
+
+  Lemma zigzag_bound : forall (vs : nat) (j : Z),
+    1 <= vs ->
+    (- 2 ^ (7 * Z.of_nat vs - 1) <= j < 2 ^ (7 * Z.of_nat vs - 1))%Z ->
+    (zigzag j < 128 ^ N.of_nat vs)%N.
+  Proof.
+    intros vs j Hvs Hj.
+    assert (E : (Z.of_N (128 ^ N.of_nat vs) = 2 * 2 ^ (7 * Z.of_nat vs - 1))%Z).
+    { rewrite N2Z.inj_pow. change (Z.of_N 128) with (2 ^ 7)%Z. rewrite <- Z.pow_mul_r by lia.
+      replace (7 * Z.of_N (N.of_nat vs))%Z with (1 + (7 * Z.of_nat vs - 1))%Z by lia.
+      rewrite Z.pow_add_r by lia. reflexivity. }
+    set (Q := (128 ^ N.of_nat vs)%N) in *. set (P := (2 ^ (7 * Z.of_nat vs - 1))%Z) in *.
+    clearbody Q P.
+    unfold zigzag. destruct (j <? 0)%Z eqn:Ej; [apply Z.ltb_lt in Ej|apply Z.ltb_ge in Ej].
+    - apply N2Z.inj_lt. rewrite Z2N.id by lia. rewrite E. lia.
+    - apply N2Z.inj_lt. rewrite Z2N.id by lia. rewrite E. lia.
+  Qed.
+
+  (* ---------------------------------------------------------------- the fixpoint is exact *)
+  (* every varint branch that resolveLabels accepts fills its placeholder exactly *)
+  Inductive exact_sizes (poss : list nat) : nat -> list pinstr -> list nat -> Prop :=
+  | exact_nil : forall pos, exact_sizes poss pos [] []
+  | exact_cons : forall pos pi vs ps vss,
+      (forall op k dest, pi = PBranchV op k -> label_pos labs poss k = Some dest -> dest <> pos ->
+                         List.length (put_varint (vjump pos vs dest)) = vs) ->
+      exact_sizes poss (pos + psize pi vs) ps vss ->
+      exact_sizes poss pos (pi :: ps) (vs :: vss).
+
+  Lemma fixpoint_exact : forall v poss endpos ps pos vss bytes,
+    List.length ps = List.length vss ->
+    shrink_step labs poss pos ps vss = vss ->
+    resolve_all v labs poss endpos pos ps vss = Some bytes ->
+    exact_sizes poss pos ps vss.
+  Proof.
+    induction ps as [|pi ps IH]; intros pos vss bytes Hl Hfix Hres; destruct vss as [|vs vss];
+      simpl in Hl; try discriminate.
+    - constructor.
+    - cbn [shrink_step] in Hfix. injection Hfix as Hvs Hrest.
+      cbn [AvmCodec.resolve_all] in Hres.
+      destruct (resolve_one v labs poss endpos pos pi vs) as [a|] eqn:R1; try discriminate.
+      destruct (resolve_all v labs poss endpos (pos + psize pi vs) ps vss) as [b|] eqn:R2; try discriminate.
+      constructor.
+      + intros op k dest Hpi Hlab Hne. subst pi. rewrite Hlab in Hvs.
+        destruct (dest =? pos) eqn:Ed; [apply Nat.eqb_eq in Ed; lia|].
+        clear Hrest.
+        cbn [AvmCodec.resolve_one] in R1. rewrite Hlab in R1. rewrite Ed in R1.
+        destruct ((v <=? 1)%N && (dest =? endpos)); try discriminate.
+        destruct ((v <? back_ver)%N && (dest <? pos + 1 + vs)); try discriminate.
+        set (jump := vjump pos vs dest) in *.
+        destruct ((jump <? - 2 ^ (7 * Z.of_nat vs - 1))%Z || (2 ^ (7 * Z.of_nat vs - 1) <=? jump)%Z) eqn:El;
+          try discriminate.
+        apply orb_false_iff in El. destruct El as [El1 El2].
+        apply Z.ltb_ge in El1. apply Z.leb_gt in El2.
+        destruct (List.length (put_varint jump) <? vs) eqn:En.
+        * (* would have shrunk: contradiction with the fixpoint *)
+          apply Nat.ltb_lt in En. lia.
+        * apply Nat.ltb_ge in En.
+          assert (Hvs1 : 1 <= vs).
+          { destruct (Nat.eq_dec vs 0) as [Ez|Ez]; [|lia]. exfalso. rewrite Ez in El1, El2.
+            change (7 * Z.of_nat 0 - 1)%Z with (-1)%Z in *. change (2 ^ (-1))%Z with 0%Z in *. lia. }
+          assert (List.length (put_varint jump) <= vs); [|lia].
+          unfold put_varint, put_uvarint. apply put_uvarint_f_len_le; [lia|].
+          apply zigzag_bound; [lia|]. lia.
+      + eapply IH; eauto.
+  Qed.
+
+  Lemma find_sizes_fix : forall fuel ps vss r,
+    find_sizes labs fuel ps vss = Some r ->
+    List.length ps = List.length vss ->
+    shrink_step labs (positions 0 ps r) 0 ps r = r /\ List.length ps = List.length r.
+  Proof.
+    induction fuel as [|fuel IH]; intros ps vss r H Hl; cbn [find_sizes] in H.
+    - destruct (nat_list_eqb (shrink_step labs (positions 0 ps vss) 0 ps vss) vss) eqn:E; try discriminate.
+      inversion H; subst. apply nat_list_eqb_eq in E. auto.
+    - destruct (nat_list_eqb (shrink_step labs (positions 0 ps vss) 0 ps vss) vss) eqn:E.
+      + inversion H; subst. apply nat_list_eqb_eq in E. auto.
+      + apply IH in H; auto. rewrite shrink_step_length; auto.
+  Qed.
+
+  (* at the layout found by findBranchSizes, every resolved varint branch occupies exactly the
+     bytes of its minimal encoding: no zero byte of the placeholder survives in the program *)
+  Theorem branch_sizes_exact : forall v ps fuel vss bytes,
+    find_sizes labs fuel ps (map (fun _ => 3) ps) = Some vss ->
+    resolve_all v labs (positions 0 ps vss) (last (positions 0 ps vss) 0) 0 ps vss = Some bytes ->
+    exact_sizes (positions 0 ps vss) 0 ps vss.
+  Proof.
+    intros v ps fuel vss bytes Hf Hr.
+    apply find_sizes_fix in Hf; [|rewrite map_length; reflexivity]. destruct Hf as [Hfix Hl].
+    eapply fixpoint_exact; eauto.
   Qed.
 End AsmProofs.
